@@ -96,6 +96,9 @@ enum Ms {
         /// an ack or nack naming this lease is in flight or indeterminate
         maybe_gone: bool,
         maybe_acked: bool,
+        /// latest end of the lease implied by the modifications resolved so far (`hi` is
+        /// infinite while a modification is still in flight)
+        hi_known: u64,
     },
     Acked,
     /// acknowledged or queued, not known which
@@ -385,7 +388,7 @@ impl<'a> Model<'a> {
             }
         }
         match prev {
-            Some(Ms::Leased { lo, hi: _, modified, maybe_gone, maybe_acked, ack }) => {
+            Some(Ms::Leased { lo, hi: _, modified, maybe_gone, maybe_acked, ack, .. }) => {
                 if now < lo && !maybe_gone && !maybe_acked {
                     let props: &[&str] = if modified { &["C03", "C05"] } else { &["C03", "C04"] };
                     self.v(
@@ -439,7 +442,7 @@ impl<'a> Model<'a> {
             }
         }
         self.subs[si].lease_by_ack.insert(r.ack_id.clone(), mkey);
-        self.subs[si].msgs.insert(mkey, Ms::Leased { ack: r.ack_id.clone(), lo, hi, modified: false, maybe_gone, maybe_acked });
+        self.subs[si].msgs.insert(mkey, Ms::Leased { ack: r.ack_id.clone(), lo, hi, modified: false, maybe_gone, maybe_acked, hi_known: hi });
     }
 
     fn deliveries(&mut self, sub: &str, recvs: &[Recv], lo_idx: usize, via_stream: bool, call: CallId) {
@@ -569,8 +572,11 @@ impl<'a> Model<'a> {
                 None => continue,
             };
             for (k, st) in self.subs[si].msgs.range_mut(key..=key) {
-                if let Ms::Leased { ack, lo, hi, maybe_gone, .. } = st {
+                if let Ms::Leased { ack, lo, hi, maybe_gone, hi_known, .. } = st {
                     if ack == a {
+                        if *hi != u64::MAX {
+                            *hi_known = (*hi_known).max(*hi);
+                        }
                         let live = now < *lo;
                         snap.push((si, *k, live, *n, *lo, ack.clone(), *hi, self_idx));
                         if *n == 0 {
@@ -603,17 +609,23 @@ impl<'a> Model<'a> {
                 .filter(|m| m.0 <= idx && m.1 >= *start_idx && (m.2.iter().any(|a| a == snap_ack) || m.3.iter().any(|(a, _)| a == snap_ack)))
                 .count()
                 > 1;
+            let still_pending = self.subs[*si]
+                .mutations
+                .iter()
+                .any(|m| m.0 != *start_idx && m.0 <= idx && m.1 > idx && m.3.iter().any(|(a, n)| a == snap_ack && *n > 0));
             if let Some(st) = self.subs[*si].msgs.get_mut(k) {
-                if let Ms::Leased { lo, hi, modified, maybe_gone, maybe_acked, ack } = st {
+                if let Ms::Leased { lo, hi, modified, maybe_gone, maybe_acked, ack, hi_known } = st {
                     if ack != snap_ack {
                         // the lease named by the request has ended meanwhile
                         continue;
                     }
                     if !ok {
                         // indeterminate: keep the widened window
-                        if *hi == u64::MAX {
-                            *hi = (*old_hi).max(now + eff_secs(*n) * SEC + SLACK);
+                        *hi_known = (*hi_known).max(now + eff_secs(*n) * SEC + SLACK);
+                        if *hi == u64::MAX && !still_pending {
+                            *hi = *hi_known;
                         }
+                        let _ = old_hi;
                         continue;
                     }
                     if *n == 0 {
@@ -630,11 +642,14 @@ impl<'a> Model<'a> {
                         let nh = now + eff_secs(*n) * SEC + SLACK;
                         if overlapping {
                             *lo = (*lo).min(*old_lo).min(nl);
-                            let cur_hi = if *hi == u64::MAX { 0 } else { *hi };
-                            *hi = cur_hi.max(*old_hi).max(nh);
+                            *hi_known = (*hi_known).max(nh);
+                            // while another request naming this id has not been applied yet the
+                            // end of the lease stays open
+                            *hi = if still_pending { u64::MAX } else { *hi_known };
                         } else {
                             *lo = if *live { nl } else { (*old_lo).min(nl) };
-                            *hi = if *live { nh } else { nh.max(*old_hi) };
+                            *hi = if *live { nh } else { nh.max(*hi_known) };
+                            *hi_known = *hi;
                         }
                         *modified = true;
                         let _ = maybe_gone;
@@ -1019,15 +1034,20 @@ impl<'a> Model<'a> {
                             self.subs[id].del_i = Some(c.invoke_idx);
                         }
                         self.check_view(id, view, "CreateSubscription", c.invoke_idx);
-                        // publishes in flight right now may or may not reach it
-                        let inflight: Vec<CallId> = self.inflight_pubs.iter().cloned().collect();
-                        for p in inflight {
-                            if let Req::Publish { topic: pt, mkeys } = &self.tr.calls[p].req {
-                                if pt == topic {
-                                    for k in mkeys {
-                                        self.subs[id].msgs.entry(*k).or_insert(Ms::Maybe);
-                                    }
-                                }
+                        // publishes that overlapped this create (also ones that have returned
+                        // meanwhile) may or may not have reached the new subscription
+                        let overlapping: Vec<Vec<u64>> = self
+                            .tr
+                            .calls
+                            .iter()
+                            .filter_map(|p| match &p.req {
+                                Req::Publish { topic: pt, mkeys } if pt == topic && p.invoke_idx < idx && p.done.as_ref().map(|d| d.0 > c.invoke_idx).unwrap_or(true) => Some(mkeys.clone()),
+                                _ => None,
+                            })
+                            .collect();
+                        for mkeys in overlapping {
+                            for k in mkeys {
+                                self.subs[id].msgs.entry(k).or_insert(Ms::Maybe);
                             }
                         }
                     }
@@ -1451,7 +1471,7 @@ impl<'a> Model<'a> {
                         if let Req::Publish { topic, mkeys } = &self.tr.calls[p].req {
                             if *topic == self.subs[si].topic_name {
                                 for k in mkeys {
-                                    self.subs[si].msgs.insert(*k, Ms::Maybe);
+                                    self.subs[si].msgs.entry(*k).or_insert(Ms::Maybe);
                                 }
                             }
                         }
@@ -1476,10 +1496,18 @@ impl<'a> Model<'a> {
         let acks_n: Vec<String> = acks.iter().map(|a| norm_ack(a)).collect();
         let mods_n: Vec<(String, i32)> = mods.iter().map(|(a, n)| (norm_ack(a), *n)).collect();
         let (acks, mods) = (&acks_n[..], &mods_n[..]);
-        let (sub, si) = match self.streams.get(&call) {
+        let (sub, mut si) = match self.streams.get(&call) {
             Some(st) => (st.sub.clone(), st.sub_inst),
             None => return,
         };
+        if si.is_none() {
+            // the stream was opened while its subscription's create was still in flight
+            si = self.cur_sub(&sub);
+            if let (Some(i), Some(st)) = (si, self.streams.get_mut(&call)) {
+                st.sub_inst = Some(i);
+                self.subs[i].consumers.insert(call);
+            }
+        }
         let valid = valid_raw;
         if let Some(st) = self.streams.get_mut(&call) {
             st.ctrl_since_qp = true;
@@ -1589,7 +1617,8 @@ impl<'a> Model<'a> {
                 );
             }
             // stats against the model
-            let quiet = self.subs[si].mutators.is_empty() && self.subs[si].tainted_until == 0;
+            // (phantom leases of abandoned consumers are covered by the ranges of `counts`)
+            let quiet = self.subs[si].mutators.is_empty();
             let only_waiting = self.subs[si].consumers.iter().all(|c| waiting.contains(c));
             if quiet && only_waiting {
                 let (bmin, bmax, omin, omax, smin, smax) = self.counts(si);
